@@ -282,7 +282,7 @@ def run(chk):
         "elements_bit_identical_to_scalar_binding": sum(e["scalar_exact"] for e in done),
         "elements_differing_only_in_zero_sign_or_nan_bits": sum(e.get("scalar_zero_sign_or_nan_bits", 0) for e in done),
         "elements_skipped_nonfinite_single_vs_double": sum(e.get("scalar_nonfinite_skipped", 0) for e in done),
-        "max_ulp_vs_scalar(in units of the first-order sum-of-terms estimate)": max([e["scalar_ulp_max"] for e in done if e["scalar_ulp_max"] < 10 ** 9] + [0]),
+        "max_accepted_deviation_vs_scalar(ulps of the element's largest component; beyond the tolerance: units of the first-order sum-of-absolute-terms estimate)": max([e["scalar_ulp_max"] for e in done if e["scalar_ulp_max"] < 10 ** 9] + [0]),
         "ulp_tolerance": ULP_TOL,
         "length_mismatch_cases": sum((e.get("mismatch_len") or {}).get("cases", 0) for e in done),
         "length_mismatch_raised": sum((e.get("mismatch_len") or {}).get("raised", 0) for e in done),
